@@ -249,8 +249,6 @@ def check_a64_forms(m, variant, mn, ops):
 
 def step_x86(m, variant, mn, ops):
     if mn is None or mn in ("section", "global", "extern"):
-        if variant == "LAB":
-            m.events.append(("label", ops))
         return
     check_x86_forms(m, variant, mn, ops)
     if mn in ("mov", "mov qword"):
@@ -304,8 +302,6 @@ def step_x86(m, variant, mn, ops):
 
 def step_a64(m, variant, mn, ops):
     if mn is None or mn.startswith("."):
-        if variant == "LAB":
-            m.events.append(("label", ops))
         return
     check_a64_forms(m, variant, mn, ops)
     if mn in ("ADD", "SUB", "MUL", "SDIV"):
@@ -449,6 +445,9 @@ def run(ctx, arch, codes, machine=None):
             m.errors.append("non-instruction in emission list: %r" % (c,))
             continue
         if c.variant == "COMMENT":
+            continue
+        if c.variant == "LAB":
+            m.events.append(("label", c.fields.get("0")))
             continue
         variant, mn, ops = operands(ctx, arch, c)
         (step_x86 if arch == "x86_64" else step_a64)(m, variant, mn, ops)
